@@ -148,3 +148,39 @@ CHECKS["C19"] = {
          "checks_quick": 80, "checks_thorough": 2000, "shards_quick": 8, "shards_thorough": 16, "timeout_quick": 300, "timeout_thorough": 1800},
     ],
 }
+
+CHECKS["C12"] = {
+    "level": "exploration",
+    "technique": "property-based testing: generated table layouts and key sets, full iterations compared with the exact key set (rapid)",
+    "level_text": ("engine: C11's generator (overwrites, deletes, raw replica writes, compaction leaving holes and recycled tables, transfers) shapes the tables, then the cursor loop is driven to completion with COUNT in {1,2,3,10,1000} "
+                   "and MATCH patterns; it must terminate within a bound and yield exactly the present (matching) keys. cluster: on real in-process clusters (1-3 members, R 1-2, 1-13 partitions, small tables) a generated history of puts, "
+                   "overwrites, deletes and compactions is followed by full iterations through the embedded iterator, the cluster-client iterator and raw DM.SCAN cursor loops per partition on primaries and on replicas, optionally while other keys are "
+                   "written and deleted concurrently: every stable key at least once (exactly once through the client iterators), no deleted or never-stored key, MATCH exact."),
+    "level_note": "trusted: Go's regexp as the specification of MATCH; the harness model of the key set; membership stable",
+    "rule": ("engine: non-trivial = a scan with COUNT < 1000 or MATCH over tables with holes/recycled tables, or COUNT = 1 over >= 2 keys, or a MATCH that filters. cluster: non-trivial = COUNT = 1, or COUNT < 1000 while some fragment spans >= 2 tables, or a MATCH on a non-empty DMap. distinct = distinct case hash"),
+    "assumptions": ["no ttl is used (expired keys are outside this property)"],
+    "parts": [
+        {"name": "engine", "pkg": KV, "test": "TestVerifC12Engine", "kind": "rapid",
+         "checks_quick": 1500, "checks_thorough": 60000, "shards_quick": 8, "shards_thorough": 16, "timeout_quick": 300, "timeout_thorough": 1800},
+        {"name": "cluster", "pkg": ROOT, "test": "TestVerifC12Cluster", "kind": "rapid",
+         "checks_quick": 40, "checks_thorough": 1000, "shards_quick": 8, "shards_thorough": 16, "timeout_quick": 300, "timeout_thorough": 1800},
+    ],
+}
+
+CHECKS["C20"] = {
+    "level": "exploration",
+    "technique": "property-based testing of long churn workloads with exact byte accounting and a derived allocation bound as oracles (rapid)",
+    "level_text": ("engine: generated churn (overwrite / delete / ttl update over 5-50 fixed keys, value sizes <= table/4, through Put or the replica path PutRaw) in rounds with compaction-until-done between rounds; after every round "
+                   "Stats().Inuse must equal the encoded size of the live entries exactly (superseded bytes moved to garbage), compaction must report completion within a bound and leave no table at or above the 40 % garbage threshold, "
+                   "and the number of tables ever allocated must stay below ceil(peakLive/(0.6*S-e_max)) + ceil(roundBytes/(S-e_max)) + 3, a bound that does not grow with the number of rounds. "
+                   "dmap: the same on real clusters (R 1-2) through client paths, using the compaction worker's own routine, checked per fragment on primaries and on backups."),
+    "level_note": "trusted: the derivation of the table bound (DESIGN.md C20); 'of any length' is sampled up to ~10^5 writes in the thorough tier",
+    "rule": ("engine: non-trivial = >= 3 rounds and at least one table was recycled. dmap: non-trivial = a backup fragment was examined (R = 2). distinct = distinct case hash"),
+    "assumptions": ["entries written with a 1 ms ttl may be evicted in the background at any time: the byte accounting accepts both"],
+    "parts": [
+        {"name": "engine", "pkg": KV, "test": "TestVerifC20Engine", "kind": "rapid",
+         "checks_quick": 300, "checks_thorough": 2500, "shards_quick": 8, "shards_thorough": 16, "timeout_quick": 300, "timeout_thorough": 1800},
+        {"name": "dmap", "pkg": ROOT, "test": "TestVerifC20DMap", "kind": "rapid",
+         "checks_quick": 12, "checks_thorough": 120, "shards_quick": 8, "shards_thorough": 16, "timeout_quick": 300, "timeout_thorough": 1800},
+    ],
+}
